@@ -298,7 +298,7 @@ func genC02(seed uint64, tier, outdir string) *Report {
 	w.Replay, w.AdvanceChance = 60, 55
 	rep := runMoneyStream(MoneyStream{Prop: "C02", Weights: w, NRandom: [2]int{12, 150}, Len: [2]int{60, 140},
 		Scripts: []func(*L1Scenario, int){c02Script}, NScript: [2]int{16, 200},
-		Monitors: []L1Monitor{c02Monitor, provenLeafMonitor("C02"), reentryMonitor("C02")}, Extra: c02Exhaustive,
+		Monitors: []L1Monitor{c02Monitor, provenLeafMonitor("C02"), reentryMonitor("C02"), outputLogMonitor("C02")}, Extra: c02Exhaustive,
 		Prep: moneyPrep, Spice: (*L1Scenario).variantStep, SpicePct: 12,
 		Rule: "a case is one L1 history on a fresh instance (scripted resubmission-dense schedule plus random tail, fully random, or one schedule of the exhaustive enumeration); distinct by hash of the op list; non-trivial = at least one finalization accepted and at least one rejected"},
 		seed, tier, outdir)
